@@ -55,7 +55,7 @@ FLOORS["C19"] = {"evaluations": 500_000, "distinct_nontrivial": 500}
 # ----------------------------------------------------------------------------------------------
 prop("C20", level="exploration",
      title="Endian-tagged integers keep their declared byte order for every value",
-     technique="reference-model monitor: wrapper conversions, in-memory bytes, equality and inequality operators in all three pairings (wrapper/native, native/wrapper, wrapper/wrapper), clone, Into, Default, comparisons of two typed views of the SAME bytes, every byte-level view (as_slice, as_mut_slice, as_bytes, from_slice, write_all_to, read_exact_from, zeroed) and guest-memory wire format compared with std to_le_bytes/to_be_bytes; 16-bit types exhaustive, 32-bit exhaustive in the thorough tier, 64-bit structured + random",
+     technique="reference-model monitor: wrapper conversions, in-memory bytes, equality and inequality operators in all three pairings (wrapper/native, native/wrapper, wrapper/wrapper), clone, Into, Default, comparisons of two typed views of the SAME bytes, nine fresh processes whose first endian operation differs (wrappers obtained from wire bytes / guest memory / a stream before any From), every byte-level view (as_slice, as_mut_slice, as_bytes, from_slice, write_all_to, read_exact_from, zeroed) and guest-memory wire format compared with std to_le_bytes/to_be_bytes; 16-bit types exhaustive, 32-bit exhaustive in the thorough tier, 64-bit structured + random",
      rule="cases = (wrapper, value, comparison partner) ; 16-bit wrappers: all 2^16 values x 5 partners (exhaustive); 32-bit: 2^24 structured + random (quick) / all 2^32 (thorough); 64-bit/size: every value with <=2 distinct byte values for 8 byte pairs, walking ones/zeros, byte position markers, palindromes + seeded random; memory-level write_obj/read_obj checks at unaligned offsets in a VolatileSlice and a GuestMemoryMmap; distinct key = (width, value pattern class / high byte / byte value at position, symmetric-under-byteswap?) - a key is non-trivial because each names a byte pattern whose byte order is observable",
      exhaustive_note="Le16/Be16: all 65536 values in every tier; Le32/Be32: all 2^32 values in the thorough tier",
      assumptions=["std's to_le_bytes/to_be_bytes define the wire format", "host is little-endian x86-64 (the big-endian host half of 'regardless of the host' cannot be executed here)"],
@@ -81,7 +81,7 @@ FLOORS["C20"] = {"evaluations": 10_000_000, "distinct_nontrivial": 1000}
 prop("C02", level="exploration",
      title="Guest address queries answer exactly according to the set of mapped regions",
      technique="reference-model monitor: every address query of GuestMemoryMmap and of a second trait implementation (MockMemory, default methods only) compared with an interval-set model; small universe enumerated completely, large layouts boundary-sampled; for the mmap collection the same queries are repeated on collections DERIVED from it (each region removed with remove_region, then re-inserted with insert_region), which must answer according to the derived layout",
-     rule="cases = (backend, layout, query, address, length). Exhaustive part: all layouts of 1..3 regions with sizes 1..4 inside [0,14) (8430 layouts) x 3 translations (at 0, ending at 2^64-2, ending at 2^64-1 [mock only]) x every address of the universe +-1 plus the opposite extreme x every length 0..16 plus usize::MAX, usize::MAX-1, 2^63. Random part: <=8 regions, sizes 1 B..1 MiB, holes 0 B..2^61, addresses at region edges +-2 and extremes, lengths from the boundary generator. Collections of 9..257 regions (lookup strategies may change with the count). OWNED anonymous regions of 2 MiB - 4 KiB .. 8 MiB (42 of them, kept alive so that placements differ): every route to a host pointer (get_host_address at both levels, get_slice at both levels, as_volatile_slice, as_ptr) agrees and a byte written through the interface is the byte at that pointer. Backends: mmap, mock, mmap-removed (one region removed: top / bottom / middle), mmap-reinserted. distinct key = (backend, query, answer class, position of the address relative to the nearest region edge, length-vs-run class, layout shape); non-trivial = the address is at/next to a region edge or in a hole (keys for addresses strictly inside/above/below everything are counted separately as trivial)",
+     rule="cases = (backend, layout, query, address, length). Exhaustive part: all layouts of 1..3 regions with sizes 1..4 inside [0,14) (8430 layouts) x 3 translations (at 0, ending at 2^64-2, ending at 2^64-1 [mock only]) x every address of the universe +-1 plus the opposite extreme x every length 0..16 plus usize::MAX, usize::MAX-1, 2^63. Random part: <=8 regions, sizes 1 B..1 MiB, holes 0 B..2^61, addresses at region edges +-2 and extremes, lengths from the boundary generator. Collections of 9..257 regions (lookup strategies may change with the count). 8 threads x 150 000 concurrent lookups (find_region, to_region_addr, get_host_address, address_in_range, check_range) on one shared 6-region collection, each thread mostly in its own region (an answer must not depend on what another thread asked last). OWNED anonymous regions of 2 MiB - 4 KiB .. 8 MiB (42 of them, kept alive so that placements differ): every route to a host pointer (get_host_address at both levels, get_slice at both levels, as_volatile_slice, as_ptr) agrees and a byte written through the interface is the byte at that pointer. Backends: mmap, mock, mmap-removed (one region removed: top / bottom / middle), mmap-reinserted. distinct key = (backend, query, answer class, position of the address relative to the nearest region edge, length-vs-run class, layout shape); non-trivial = the address is at/next to a region edge or in a hole (keys for addresses strictly inside/above/below everything are counted separately as trivial)",
      exhaustive_note="all 1..3-region layouts with region sizes 1..4 in a 14-byte universe, at three translations, all addresses and lengths of that universe",
      assumptions=["the interval-set model (models/layout.rs, 60 lines) is the specification", "check_range(b,0) and get_slice(a,0) at an unmapped address are recorded but not judged (vacuous for an empty range)", "mmap-backed regions in this monitor are build_raw views of a PROT_NONE reservation: only pointers are compared, bytes are never touched"],
      level_text="Complete enumeration of a small universe plus boundary-biased sampling of large layouts, with a model oracle on every answer; held-on-observed for the layouts/addresses actually queried.",
@@ -104,7 +104,7 @@ FLOORS["C02"] = {"judged_queries": 2_000_000, "distinct_nontrivial": 2000}
 prop("C09", level="exploration",
      title="The page bitmap behaves as a set of page numbers under every operation sequence",
      technique="reference-model monitor: AtomicBitmap (plus RefSlice/ArcSlice views, Option and unit bitmaps) stepped against a BTreeSet model with a full read-out of every observable after every operation; single operations enumerated completely on a small space, random operation sequences beyond; Miri pass in the thorough tier",
-     rule="cases = operation sequences on (byte_size, page_size). Exhaustive part: byte_size 0..20 x page in {1,2,3} x 4 structured initial states x every single operation with (start,len) in 0..22 x 0..22 (set/reset range), every bit index 0..22 (set/reset bit), get_and_reset, reset, clone, clone_from into a differently sized destination with every page dirty. Random part: sizes {0,1,p-1,p,p+1,63p..65p,127p..129p,<=10^4}, pages {1,2,3,5,7,64,100,128,4096,>size}, 30..300 operations incl. enlarge, clone, clone_from into a destination with fewer / equal / more 64-page words and another page size, construction through new / NewBitmap::with_len / Default, range starts and lengths of the form 2^k +- d for every k, one bitmap with 2^32 + 70 000 pages (marks, resets, single bits and slice views around index 2^32), nested slice_at views (RefSlice and ArcSlice) with wrapping offsets, ranges near usize::MAX. After every step: is_bit_set for 0..pages+130, is_addr_set/dirty_at at every page start/end and extremes, len, byte_size, clone().get_and_reset() words, clone independence. distinct key = (operation, page-size class, page-count class, range class, enlarge/clone depth); all keys non-trivial",
+     rule="cases = operation sequences on (byte_size, page_size). Exhaustive part: byte_size 0..20 x page in {1,2,3} x 4 structured initial states x every single operation with (start,len) in 0..22 x 0..22 (set/reset range), every bit index 0..22 (set/reset bit), get_and_reset, reset, clone, clone_from into a differently sized destination with every page dirty. Random part: sizes {0,1,p-1,p,p+1,63p..65p,127p..129p,<=10^4}, pages {1,2,3,5,7,64,100,128,4096,>size}, 30..300 operations incl. enlarge, clone, clone_from into a destination with fewer / equal / more 64-page words and another page size, construction through new / NewBitmap::with_len / Default, range starts and lengths of the form 2^k +- d for every k, one bitmap with 2^32 + 70 000 pages (marks, resets, single bits and slice views around index 2^32), repetition wraps (255..196 608 clearing operations of 4 kinds between two uses of a page), nested slice_at views (RefSlice and ArcSlice) with wrapping offsets, ranges near usize::MAX. After every step: is_bit_set for 0..pages+130, is_addr_set/dirty_at at every page start/end and extremes, len, byte_size, clone().get_and_reset() words, clone independence. distinct key = (operation, page-size class, page-count class, range class, enlarge/clone depth); all keys non-trivial",
      exhaustive_note="every single range/bit operation with arguments <= 22 from 4 structured states for byte_size <= 20 and page size 1..3",
      assumptions=["BTreeSet model in mon_c09.rs is the specification (ranges running past usize::MAX saturate)"],
      level_text="Model-based runtime oracle with full read-out after every step over an exhaustively enumerated small space and thousands of random sequences; held-on-observed.",
@@ -182,7 +182,7 @@ FLOORS["C01"] = {"chains_depth_ge2": 5000, "distinct_nontrivial": 3000}
 prop("C03", level="exploration",
      title="Guest memory reads and writes behave like one flat sparse byte array",
      technique="history monitor with a flat sparse byte-array model over the interval model: return values, error variants and PartialBuffer counts of every guest-level access are compared with the model, and every region, its mapping slack and its backing file are re-read through an independent path after every step; backends anonymous mmap, MAP_SHARED file, MockMemory (default trait methods, region ending at 2^64-1 plus region at 0), Xen-UNIX in the thorough tier; Miri/ASan passes",
-     rule="cases = histories of 20..200 mixed operations (write/read/write_slice/read_slice, write_obj/read_obj of 1..32-byte objects, atomic store/load, read_volatile_from/read_exact_volatile_from from slices and cursors of shorter/equal/longer length, write_volatile_to/write_all_volatile_to into a Vec, through short-reading / short-accepting streams, region-level buffer access and region-level stream transfers with counts {1..20, remaining, remaining+1, 2^63, usize::MAX, values whose sum with the offset overflows}) on layouts of 1..5 regions (now and then one longer than 64 KiB); direct try_access calls with full- and partial-progress callbacks; one region of 2 GiB + 8 KiB followed by an adjacent one, streamed out and in through a sparse stream that only looks at marker positions (around 0x7ffff000, 2^31, the region boundary), with sinks/sources that take everything or 1..1.5 GiB per call (touching, 1-byte and large holes, at 0, next to / at the top of the address space) with start addresses at region edges +-2 and buffer lengths run-1, run, run+1, longer. distinct key = (operation, outcome class, number of regions crossed, position class of the start address, length-vs-run class, backend); all non-trivial",
+     rule="cases = histories of 20..200 mixed operations (write/read/write_slice/read_slice, write_obj/read_obj of 1..32-byte objects, atomic store/load, read_volatile_from/read_exact_volatile_from from slices and cursors of shorter/equal/longer length, write_volatile_to/write_all_volatile_to into a Vec, through short-reading / short-accepting streams, region-level buffer access and region-level stream transfers with counts {1..20, remaining, remaining+1, 2^63, usize::MAX, values whose sum with the offset overflows}) on layouts of 1..5 regions (now and then one longer than 64 KiB); direct try_access calls with full- and partial-progress callbacks; one region of 2 GiB + 8 KiB followed by an adjacent one, streamed out and in through a sparse stream that only looks at marker positions (around 0x7ffff000, 2^31, the region boundary), with sinks/sources that take everything or 1..1.5 GiB per call; a 6 MiB FILE-backed region with non-zero contents overwritten with zeros / ones / one repeated byte / ordinary data in page-aligned and unaligned multi-MiB pieces through 3 write routes, read back through the interface, the mapping and the file (touching, 1-byte and large holes, at 0, next to / at the top of the address space) with start addresses at region edges +-2 and buffer lengths run-1, run, run+1, longer. distinct key = (operation, outcome class, number of regions crossed, position class of the start address, length-vs-run class, backend); all non-trivial",
      assumptions=["flat byte-array model (models/world.rs) is the specification", "empty buffers are left to C18", "in-memory streams of the exact forms are at least `count` long (short/faulty streams are C14)"],
      level_text="Model-based history monitor with full-memory frame comparison after every step, three backends; held-on-observed.",
      level_note="Trusts the flat model and MockMemory's required methods; host pointers are read by the harness through raw volatile loads.",
@@ -237,7 +237,7 @@ def plan_c04(tier, seed):
 FLOORS["C04"] = {"grid_cells": 6400, "evaluations": 300_000, "distinct_nontrivial": 5000}
 
 # ----------------------------------------------------------------------------------------------
-_C0516_RULE = ("cases = histories of 30..120 operations on GuestMemoryMmap<B> with 1..3 (mostly adjacent) regions, page sizes {1,2,3,7,8,16,64,100,4096,size-1,size,size+1,2*size,random}, bitmap flavours AtomicBitmap (RefSlice views), Option<AtomicBitmap> (Some/None), an Arc-backed bitmap (ArcSlice views) and a region of 4 GiB + 64 KiB with page size 1 (page indices beyond 2^32: writes at guest, region and slice level around index 2^32, partial reset, aliases at the low offsets watched), a PROBE bitmap implemented by the harness (own Bitmap / BitmapSlice types over an AtomicBitmap) that snapshots the bytes of the pages being marked at the moment of every mark. Write routes: write, write_slice, write_obj, VolatileRef::store, VolatileArrayRef::{store, copy_from, ref_at.store}, copy_from<T>, atomic store, slice->slice and array->slice copies, read_volatile_from/read_exact_volatile_from from &[u8], Cursor, File, a failing descriptor and a reader that fails after a partial fill - at slice level (through accessors reached by random derivation chains of depth 0..6 with non-aligned bases, incl. get_slice / to_slice / ref_at views), region level and guest-memory level (cross-region). Non-writing routes: reads, loads, copy_to, write_volatile_to / write_all_volatile_to into Vec, &mut [u8], a file and a descriptor whose write(2) FAILS (read-only), queries, derivations, pointer guards, rejected requests. Bitmap reset/reset_addr_range/get_and_reset/reset_bit interleaved. Payloads are the complement of the current contents. distinct key = (route, level, derivation depth, page-size class, page-straddle class of the range, bitmap flavour); all non-trivial")
+_C0516_RULE = ("cases = histories of 30..120 operations on GuestMemoryMmap<B> with 1..3 (mostly adjacent) regions, page sizes {1,2,3,7,8,16,64,100,4096,size-1,size,size+1,2*size,random}, bitmap flavours AtomicBitmap (RefSlice views), Option<AtomicBitmap> (Some/None), an Arc-backed bitmap (ArcSlice views) and a region of 4 GiB + 64 KiB with page size 1 (page indices beyond 2^32: writes at guest, region and slice level around index 2^32, partial reset, aliases at the low offsets watched), a store-buffer LITMUS on real threads (3 x 10^6 rounds: writer stores into an already dirty page and marks it while a harvester clears the bit and copies the page; a page that ends the round clean must have been copied with the new bytes), a PROBE bitmap implemented by the harness (own Bitmap / BitmapSlice types over an AtomicBitmap) that snapshots the bytes of the pages being marked at the moment of every mark. Write routes: write, write_slice, write_obj, VolatileRef::store, VolatileArrayRef::{store, copy_from, ref_at.store}, copy_from<T>, atomic store, slice->slice and array->slice copies, read_volatile_from/read_exact_volatile_from from &[u8], Cursor, File, a failing descriptor and a reader that fails after a partial fill - at slice level (through accessors reached by random derivation chains of depth 0..6 with non-aligned bases, incl. get_slice / to_slice / ref_at views), region level and guest-memory level (cross-region). Non-writing routes: reads, loads, copy_to, write_volatile_to / write_all_volatile_to into Vec, &mut [u8], a file and a descriptor whose write(2) FAILS (read-only), queries, derivations, pointer guards, rejected requests. Bitmap reset/reset_addr_range/get_and_reset/reset_bit interleaved. Payloads are the complement of the current contents. distinct key = (route, level, derivation depth, page-size class, page-straddle class of the range, bitmap flavour); all non-trivial")
 
 prop("C05", level="exploration",
      title="No tracked write leaves its pages clean (dirty tracking is sound)",
@@ -311,7 +311,7 @@ FLOORS["C07"] = {"calls": 200_000, "distinct_nontrivial": 5000}
 prop("C13", level="exploration",
      title="Volatile stream adapters transfer data exactly like their std::io counterparts",
      technique="differential twin monitor: every ReadVolatile/WriteVolatile adapter call is mirrored live by the corresponding std::io call on an identical twin stream with an ordinary buffer; return value / error kind, landed bytes, remaining slice, cursor position, vector contents, file offset + contents and peer-received bytes are compared; arena canaries detect writes outside the given buffer; complete grid for the in-memory adapters",
-     rule="cases = (adapter, call sequence). Grid (complete): stream/sink length 0..20 x position {0,mid,len-1,len,len+1,u64::MAX-3,u64::MAX} x buffer length 0..20 x {up-to, exact} plus a second call, for &[u8], Cursor<&[u8]>, Cursor<Vec<u8>>, &mut [u8], Vec<u8>, Cursor<&mut [u8]>. Sequences of 1..12 calls with buffer lengths {0,1,2,7,8,9,15,16,17,24,100,300,4096} on the in-memory adapters and on File, BorrowedFd, UnixStream, OwnedFd over pipes, TcpStream over loopback (reader and writer roles); descriptors on which even an empty transfer has an effect or fails - datagram sockets (writer and reader side), files opened for the other direction, a stream socket whose write side was shut down, pipes without reader / writer - with buffer lengths {0,0,1,2,7,8,9,64}, compared by result and by what the peer receives; non-blocking stream sockets with exact forms that cannot complete (library call on its own thread, 20 s watchdog); Stdout in a forked child whose descriptor 1 is a pipe. distinct key = (adapter, call, buffer-vs-available class, side of the 8-byte threshold, call index, std outcome); all non-trivial",
+     rule="cases = (adapter, call sequence). Grid (complete): stream/sink length 0..20 x position {0,mid,len-1,len,len+1,u64::MAX-3,u64::MAX} x buffer length 0..20 x {up-to, exact} plus a second call, for &[u8], Cursor<&[u8]>, Cursor<Vec<u8>>, &mut [u8], Vec<u8>, Cursor<&mut [u8]>. Sequences of 1..12 calls with buffer lengths {0,1,2,7,8,9,15,16,17,24,100,300,4096} on the in-memory adapters and on File, BorrowedFd, UnixStream, OwnedFd over pipes, TcpStream over loopback (reader and writer roles); descriptors on which even an empty transfer has an effect or fails - datagram sockets (writer and reader side), files opened for the other direction, a stream socket whose write side was shut down, pipes without reader / writer - with buffer lengths {0,0,1,2,7,8,9,64}, compared by result and by what the peer receives; non-blocking stream sockets with exact forms that cannot complete (library call on its own thread, 20 s watchdog); Stdout in a forked child whose descriptor 1 is a pipe; page-sized buffers of zeros / one repeated byte written over non-zero file contents at aligned and unaligned positions (file contents compared). distinct key = (adapter, call, buffer-vs-available class, side of the 8-byte threshold, call index, std outcome); all non-trivial",
      exhaustive_note="the in-memory adapter grid (lengths 0..20, 7 cursor positions, both call forms, two consecutive calls)",
      assumptions=["the installed std is the reference (differential, so it tracks the toolchain)", "stream position and buffer contents after a FAILED exact call are unspecified by std and are not compared (only the error kind and containment are)", "TcpStream is driven over loopback (reads only request what is already queued, since a socket may legally return short); the Stdout adapter shares the raw-fd write path and is not driven (it would write into the monitor's own protocol stream)"],
      level_text="Differential runtime oracle against std::io, complete on a small grid and sampled on sequences incl. real descriptors; held-on-observed.",
@@ -339,7 +339,7 @@ FLOORS["C13"] = {"evaluations": 30_000, "distinct_nontrivial": 300, "fd_sequence
 prop("C14", level="fault_enumeration",
      title="Stream transfers lose or duplicate nothing under short I/O, EINTR and errors",
      technique="fault enumeration with a conservation oracle over the event log of a scripted stream: every script over {full, short-1, short-3, zero, EINTR, EINTRx3, EIO, EWOULDBLOCK} up to a bounded length is executed against read_volatile_from / read_exact_volatile_from / write_volatile_to / write_all_volatile_to on a slice, a region, a guest range spanning two regions and one ending in a hole; real descriptors are driven with the same scripts through link-time interposed read(2)/write(2)",
-     rule="cases = (script, entry point, target, count). Enumerated completely: all scripts of length <= 3 (585) in the quick tier, <= 4 (4681) in the thorough tier x 4 entry points x 4 targets x counts {0,1,7,8,9,run-1,run,run+1}. Plus random scripts of length 4..12, long runs (slice, region and guest ranges with more than 64 KiB inside one region; counts 0xffff, 0x10000, 0x10001, run-1, run, run+1, random), storms of 2^17 + 3 consecutive interruptions (at the start and after partial progress, every entry point and target) and descriptor replays (file source / file sink with the interposer returning short counts, 0, EINTR, EIO, EAGAIN). Checks per execution: consumed bytes are stored in order at consecutive guest addresses (source bytes carry their stream position), bytes handed to the sink are the next guest bytes and every offered buffer starts there, nothing outside the transferred prefix changes, EINTR is never reported and always retried, the first hard error ends the transfer and is reported, exact forms are Ok iff count bytes moved, up-to forms return the bytes moved, PartialBuffer carries (count, moved). distinct key = (entry point, target, script, count class, outcome class); non-trivial = non-empty script",
+     rule="cases = (script, entry point, target, count). Enumerated completely: all scripts of length <= 3 (585) in the quick tier, <= 4 (4681) in the thorough tier x 4 entry points x 4 targets x counts {0,1,7,8,9,run-1,run,run+1}. Plus random scripts of length 4..12, long runs (slice, region and guest ranges with more than 64 KiB inside one region; counts 0xffff, 0x10000, 0x10001, run-1, run, run+1, random), storms of 2^17 + 3 consecutive interruptions (at the start and after partial progress, every entry point and target), conservation with a real Cursor as the reader (768 cases: the cursor's position delta equals the bytes stored, also when an exact form fails because the cursor runs dry) and descriptor replays (file source / file sink with the interposer returning short counts, 0, EINTR, EIO, EAGAIN). Checks per execution: consumed bytes are stored in order at consecutive guest addresses (source bytes carry their stream position), bytes handed to the sink are the next guest bytes and every offered buffer starts there, nothing outside the transferred prefix changes, EINTR is never reported and always retried, the first hard error ends the transfer and is reported, exact forms are Ok iff count bytes moved, up-to forms return the bytes moved, PartialBuffer carries (count, moved). distinct key = (entry point, target, script, count class, outcome class); non-trivial = non-empty script",
      exhaustive_note="all fault scripts up to length 3 (quick) / 4 (thorough) over an 8-letter alphabet on 4 targets x 4 entry points x 8 counts",
      assumptions=["scripts are bounded in length; after the script the stream behaves normally (full transfers)", "guest-level write_volatile_to uses write-all per region, so a zero-length accept surfaces as WriteZero there (accepted)", "a hard error after partial progress makes the up-to forms return the error (accepted: 'any other stream error ends the transfer and is reported')"],
      level_text="Complete enumeration of bounded fault scripts with an offline conservation check per execution, plus descriptor-level replay through an in-process syscall interposer.",
@@ -364,7 +364,7 @@ FLOORS["C14"] = {"executions_enumerated": 70_000, "fd_replays": 500, "distinct_n
 prop("C18", level="exploration",
      title="Zero-length accesses are successful no-ops at every layer",
      technique="matrix monitor: (entry point x layer x address class x container x zero-sized type) enumerated completely; each cell runs under catch_unwind with a byte frame and a dirty-bitmap frame around it; GuestMemoryMmap with dirty tracking and MockMemory (default trait methods, region at 2^64-1) at guest level, GuestRegionMmap / MockRegion at region level, arena slices (empty, null-based empty, 1 byte, odd alignment, with byte-granular bitmap) and region slices at slice level; debug, release and Xen builds (Xen-UNIX, and through the emulated devices: on-demand grant, advance-mapped grant and foreign regions)",
-     rule="cells = entry points {write/read/write_slice/read_slice with empty buffers; write_obj/read_obj, get_ref.load/store, get_array_ref{copy_to,copy_from,load,store,ref_at} (n=0,1,5), copy_to/copy_from for [u8;0],[u16;0],[u64;0],[u128;0]; copy_to/copy_from with empty buffers of u8/u32/u64; empty slice-to-slice copies; zero-count read_volatile_from/read_exact_volatile_from/write_volatile_to/write_all_volatile_to with slice, cursor, Vec and file streams, including sources with nothing left and sinks with no room (empty &[u8] / &mut [u8], cursors positioned at the start, at the end, past the end and at u64::MAX - the cursor must not move)} x layers {slice, region, guest} x address classes {first/inside/last byte of each region, one before, one past, hole, 0, 2^63, 2^64-1; offsets 0, inside, last, len, len+1, 2^63, usize::MAX} x 7 fixed layouts (single, at 0, adjacent, hole, near top, top [mock], 1-byte regions) + random layouts; zero-sized element copies with buffers of isize::MAX, isize::MAX+1 and usize::MAX elements. Every cell is distinct and non-trivial; judged = the statement pins it (empty-buffer / zero-sized-object forms at any address; zero-count stream forms and zero-sized element accessors at addresses valid for a non-empty access), others are recorded as notes",
+     rule="cells = entry points {write/read/write_slice/read_slice with empty buffers; write_obj/read_obj, get_ref.load/store, get_array_ref{copy_to,copy_from,load,store,ref_at} (n=0,1,5), copy_to/copy_from for [u8;0],[u16;0],[u64;0],[u128;0]; copy_to/copy_from with empty buffers of u8/u32/u64; empty slice-to-slice copies; zero-count read_volatile_from/read_exact_volatile_from/write_volatile_to/write_all_volatile_to with slice, cursor, Vec and file streams, including sources with nothing left and sinks with no room (empty &[u8] / &mut [u8], cursors positioned at the start, at the end, past the end and at u64::MAX - the cursor must not move)} x layers {slice, region, guest} x address classes {first/inside/last byte of each region, one before, one past, hole, 0, 2^63, 2^64-1; offsets 0, inside, last, len, len+1, 2^63, usize::MAX} x 7 fixed layouts (single, at 0, adjacent, hole, near top, top [mock], 1-byte regions) + random layouts; zero-sized element copies with buffers of isize::MAX, isize::MAX+1 and usize::MAX elements (in forked children with a 5 s CPU-time limit: a no-op must not walk the buffer). Every cell is distinct and non-trivial; judged = the statement pins it (empty-buffer / zero-sized-object forms at any address; zero-count stream forms and zero-sized element accessors at addresses valid for a non-empty access), others are recorded as notes",
      exhaustive_note="the complete matrix over the 7 fixed layouts and 10 containers",
      assumptions=["the element count returned by copy_to for zero-sized elements is not judged", "zero-count stream transfers at unmapped addresses are recorded, not judged"],
      level_text="Complete enumeration of the zero-length matrix with result, panic and frame oracles; held-on-observed.",
@@ -391,7 +391,7 @@ prop("C15", level="exploration",
      title="Region construction accepts exactly the safe requests and builds what was asked",
      technique="predicate-model monitor over construction grids with an in-process syscall interposer: Ok/Err and attributes compared with the statement's predicate; mmap/munmap event balance and /proc/self/maps prove that a failed construction leaves nothing mapped and that a successful one issued exactly the requested mapping; pread/pwrite coherence for MAP_SHARED file regions; Xen build: all mapping-type flag combinations against an emulated grant/privcmd device",
      rule="cases = construction requests. std build: check_file_offset grid (6 file lengths x 9 offsets x 6 sizes), MmapRegion::build / MmapRegionBuilder grid (5 anonymous flag words incl. MAP_FIXED x 5 sizes x 3 prots; 4 file flag words x 6 file lengths x 6 offsets incl. unaligned and near u64::MAX x 7 sizes around end-of-file and usize::MAX), build_raw with 11 pointer offsets x 4 sizes over an external mapping (never unmapped by the library), GuestRegionMmap::new with base+size in 2^64-2..2^64+2, from_range with files, random requests. Xen build: 32 low flag-bit combinations + 8 high-bit words x {file present, absent} x offsets {0,1,4096} x 2 sizes x 4 mmap flag/protection requests {default, MAP_SHARED + PROT_READ, MAP_SHARED|MAP_FIXED, MAP_PRIVATE|MAP_FIXED|MAP_NORESERVE}; the public flag predicates (is_valid, is_unix, is_grant, is_foreign, mmap_in_advance) against the same reading of the bits through MmapRegion::from_range with the ioctl emulator (a region that is accepted must report the requested flags and protection and never MAP_FIXED), new_unix around end-of-file. distinct key = (constructor, flag word, prot, end-vs-EOF relation, offset class, predicate clause / outcome); OS refusals (EINVAL/ENOMEM/EBADF for requests the predicate calls safe) are counted as trivial, not judged",
-     exhaustive_note="the listed grids are enumerated completely; Xen: every combination of the five low mapping-type bits; a block device (loop device over a 1 MiB image, when /dev/loop-control is usable) as backing file: 8 requests inside / past its end",
+     exhaustive_note="the listed grids are enumerated completely; Xen: every combination of the five low mapping-type bits; a block device (loop device over a 1 MiB image, when /dev/loop-control is usable) as backing file: 8 requests inside / past its end; one backing file whose length changes between 9 rounds of constructions, requests built from fresh FileOffsets and from (clones of) the FileOffset an earlier region reports",
      assumptions=["requests the predicate calls safe but the kernel refuses (size 0, unaligned file offset, exotic prot/flags) are 'OS refused': counted, not judged", "base+size == 2^64 is recorded, not judged", "Xen devices are emulated through the interposed ioctl(2): index/offset contract only"],
      level_text="Predicate oracle + kernel-level event balance over completely enumerated request grids; held-on-observed.",
      level_note="The interposer sees the mmap/munmap calls issued through the libc crate (all of vm-memory's); /proc/self/maps is the independent cross-check.",
@@ -415,7 +415,7 @@ FLOORS["C15"] = {"constructed_ok": 200, "refused_as_required": 800, "coherence_c
 prop("C17", level="exploration",
      title="Pointer guards span their accessor; on-demand mappings cover every access",
      technique="guard-extent monitor (all builds) + window monitor for on-demand Xen grant regions: the grant device is emulated through the interposed ioctl(2) (file offset = guest address), so every map/unmap request and every mmap/munmap of a temporary window is logged; per operation the touched byte range must lie inside the union of the windows requested during it, windows must be released in the right order (munmap, then unmap ioctl) with nothing left in /proc/self/maps, and the data must appear in the emulator file at the guest address; unguarded accessors run alone in forked children",
-     rule="Part A: ptr_guard/ptr_guard_mut of slices, typed refs, array refs (+ to_slice, ref_at) for 8 element types of 1..16 bytes, counts {0,1,2,3,5,16,max}, through derivation chains of depth 0..3 on arena slices at every address mod 16. Part B (xen build): histories of 30 operations from a 17-entry catalogue (region write/read/write_obj/read_obj, read_volatile_from slice/cursor/file, write_volatile_to, slice write/read, typed refs of 1..16 bytes, element arrays of 1..16-byte elements copy_from/copy_to/load/store, copy_from<u32>/<u8>, explicitly held guards, derived sub-slices, guest-level write+read, zero-length forms) with offsets at page starts, just before page ends, crossing one and two page boundaries, on GRANT|NO_ADVANCE_MAP (50%), advance-mapped GRANT, FOREIGN and Xen-UNIX regions (guest base with and without bit 63); construction and drop balance for every kind; every derivation / conversion of a slice (offset, subslice, both halves of split_at, array from slice, to_slice of arrays / refs / ref_at) written, read and guarded; the environment refusing to build the window (grant ioctl fails / window mmap fails) x 6 access routes in forked children: refused by error or panic, never carried out at the placeholder address. distinct key = (operation, region kind, pages spanned, in-page offset class) and (guard kind, element type, count); all non-trivial",
+     rule="Part A: ptr_guard/ptr_guard_mut of slices, typed refs, array refs (+ to_slice, ref_at) for 8 element types of 1..16 bytes, counts {0,1,2,3,5,16,max}, through derivation chains of depth 0..3 on arena slices at every address mod 16. Part B (xen build): histories of 30 operations from a 17-entry catalogue (region write/read/write_obj/read_obj, read_volatile_from slice/cursor/file, write_volatile_to, slice write/read, typed refs of 1..16 bytes, element arrays of 1..16-byte elements copy_from/copy_to/load/store, copy_from<u32>/<u8>, explicitly held guards, derived sub-slices, guest-level write+read, zero-length forms) with offsets at page starts, just before page ends, crossing one and two page boundaries, on GRANT|NO_ADVANCE_MAP (50%), advance-mapped GRANT, FOREIGN and Xen-UNIX regions (guest base with and without bit 63); construction and drop balance for every kind; every derivation / conversion of a slice (offset, subslice, both halves of split_at, array from slice, to_slice of arrays / refs / ref_at) written, read and guarded; a window is released exactly once (a second munmap of the same range is flagged: with concurrent mappers it would tear down someone else's window); the environment refusing to build the window (grant ioctl fails / window mmap fails) x 6 access routes in forked children: refused by error or panic, never carried out at the placeholder address. distinct key = (operation, region kind, pages spanned, in-page offset class) and (guard kind, element type, count); all non-trivial",
      assumptions=["/dev/xen/gntdev and privcmd are emulated (index = first grant reference x page size); driver-specific failure modes are out of reach", "page rounding hides an undersized window that still lies within the same pages: element arrays and offsets are chosen to cross page boundaries", "get_atomic_ref / aligned_as_ref / aligned_as_mut / Bytes::store / Bytes::load on on-demand regions are recorded known findings (see known_findings.json)"],
      level_text="Event-log oracle over the emulated grant device and the syscall interposer for thousands of accesses, plus arithmetic guard checks; held-on-observed with five recorded known findings.",
      level_note="Trusts the emulator's index/offset contract and kernel mmap semantics.",
@@ -478,7 +478,7 @@ FLOORS["C12"] = {"drop_orders_enumerated": 72, "evaluations": 5000, "distinct_no
 prop("C06", level="exploration",
      title="Aligned 1/2/4/8-byte guest accesses are never torn",
      technique="three layered monitors: (1) cfg-guarded trace hook in the byte-copy helper - for every transfer the recorded primitive accesses must tile the transfer once, ascending, aligned to their width on both sides, and an aligned 1/2/4/8-byte transfer must be exactly one access of that width, never a bulk copy; complete grid over length x guest alignment x local alignment x entry point; (2) valgrind lackey memory trace of a probe binary: between marker stores exactly one machine access of width n to the guest location; (3) black-box writer/reader tearing detector; atomic store/load round trip and refusal of every misaligned offset",
-     rule="cases = transfers. Hook grid (complete): n in 0..12 x guest address mod 8 x local address mod 8 x 29 entry points (write/read/write_slice/read_slice at slice, region and guest level; copy_from/copy_to<u8> on slices, on array refs and on array refs converted from slices; read_volatile_from(&[u8]), read_exact_volatile_from(Cursor), write_volatile_to(&mut [u8]), write_all_volatile_to(Vec); guest read_exact_volatile_from) + write_obj/read_obj of u8,u16,u32,u64,i32,usize at 8 guest alignments x 3 levels. Lackey: 35 entry points (every entry point of the hook grid, incl. the array-ref copy helpers called directly and on arrays converted from slices, the region- and guest-level buffer forms and all in-memory stream adapters, plus the whole-object and atomic forms) x {u8,u16,u32,u64} x 3 offsets on the release (quick) and debug+release (thorough) binaries. Tearing: u16/u32/u64 x {slice, region, guest} x 2*10^5 (quick) / 2*10^6 (thorough) reads each. Atomics: 6 types x 24 offsets x 3 orderings + guest level on an aligned base; 7 types x views whose base is skewed by 0..8 bytes (derived with offset / get_slice / split_at) x 16 offsets x 2 orderings for store, load and get_atomic_ref (acceptance must follow the alignment of the address; each batch runs in a forked child because a wrongly accepted misaligned reference aborts a checked build). Vec sinks whose spare capacity is smaller than the transfer (they must grow). distinct key = (entry point, direction, n, guest mod 8, local mod 8, judged-single | tiling); all non-trivial",
+     rule="cases = transfers. Hook grid (complete): n in 0..12 x guest address mod 8 x local address mod 8 x 29 entry points (write/read/write_slice/read_slice at slice, region and guest level; copy_from/copy_to<u8> on slices, on array refs and on array refs converted from slices; read_volatile_from(&[u8]), read_exact_volatile_from(Cursor), write_volatile_to(&mut [u8]), write_all_volatile_to(Vec); guest read_exact_volatile_from) + write_obj/read_obj of u8,u16,u32,u64,i32,usize at 8 guest alignments x 3 levels. Lackey: 35 entry points (every entry point of the hook grid, incl. the array-ref copy helpers called directly and on arrays converted from slices, the region- and guest-level buffer forms and all in-memory stream adapters, plus the whole-object and atomic forms) x {u8,u16,u32,u64} x 3 offsets on the release (quick) and debug+release (thorough) binaries. Tearing: u16/u32/u64 x {slice, region, guest} x 2*10^5 (quick) / 2*10^6 (thorough) reads each. Atomics: 6 types x 24 offsets x 3 orderings + guest level on an aligned base; 7 types x views whose base is skewed by 0..8 bytes (derived with offset / get_slice / split_at) x 16 offsets x 2 orderings for store, load and get_atomic_ref (acceptance must follow the alignment of the address; each batch runs in a forked child because a wrongly accepted misaligned reference aborts a checked build). Vec sinks whose spare capacity is smaller than the transfer (they must grow); local buffers that lie in the same memory directly below / directly above the guest bytes (ranges touch without overlapping). distinct key = (entry point, direction, n, guest mod 8, local mod 8, judged-single | tiling); all non-trivial",
      exhaustive_note="hook grid: every (n <= 12, guest mod 8, local mod 8) for every entry point that funnels into the copy helper",
      assumptions=["on x86-64 a single mov of width n is the observable; a change that keeps one machine access but drops `volatile` at the language level is observationally identical (stated in DESIGN.md §9)", "transfers that straddle two mappings and guest addresses whose host address is not aligned are not in the judged class", "whole-object forms: the local value's address is taken from the trace (it is naturally aligned by construction)"],
      level_text="Hook-level oracle over a completely enumerated alignment grid, cross-checked at machine level (lackey) and by a concurrent tearing detector; held-on-observed.",
@@ -513,7 +513,7 @@ FLOORS["C06"] = {"judged_single_access_transfers": 3000, "tearing_reads": 1_000_
 prop("C08", level="model_checking",
      title="A dirty mark is never lost when marking races with harvesting the bitmap",
      technique="stateless model checking of the real code under a controlled scheduler: a cfg-guarded shim (hook H2) puts a yield point in front of every atomic operation on the bitmap words, exactly one managed thread runs between two yield points, and ALL interleavings of each catalogue program are executed (DFS over choice strings with prefix replay); each execution's API-boundary history is checked for per-page linearizability against a boolean with set / clear / test-and-clear / read plus a quiescent final read; seeded random schedules for larger programs; free-running threads natively, under TSan and under Miri many-seeds",
-     rule="states = scheduler decision points, transitions = atomic steps granted; programs: 12 hand-written catalogue programs of 2..3 threads on pages that share one 64-bit word or span two (two markers + harvester, marker range vs harvester, markers + clone, marker spanning words, marker vs reset_range vs harvester, set_bit vs reset_bit, marker vs two harvesters, mark_dirty vs harvest vs is_bit_set, three markers, marker vs reset(), re-mark after harvest, range mark vs range reset) plus a systematic family of 44 programs (each of 8 operations X - reset_range, reset_bit, set_bit, mark_range, mark_dirty, harvest, reset(), wide reset_range - issued on an already dirty page while a second thread performs two further read-modify-writes on the same word, in 5 shapes: two marks, mark then harvest, harvest then mark, mark then unmark, same page twice; 4 three-thread variants with a marker and a harvester; and 20 programs that start from a value-dependent initial state set up before the threads run - the first word fully dirty, fully dirty but one page, two words fully dirty - with two harvesters, harvest vs reset+re-mark, harvest vs re-mark+harvest, reset()/reset_range/clone vs harvest+re-mark) - and 14 LONG-range programs (a mark / reset / mark_dirty range over three words, 72 atomic steps, against one or two foreign steps in its first, last or an interior word) - every interleaving of each is executed (221 527 schedules); one random program in three also starts from a fully dirty word; random 3-thread programs of up to 12 calls under seeded PCT-style schedules; 2x10^3..10^5 free-running histories. An execution is non-trivial when two different threads touch the same word back-to-back",
+     rule="states = scheduler decision points, transitions = atomic steps granted; programs: 12 hand-written catalogue programs of 2..3 threads on pages that share one 64-bit word or span two (two markers + harvester, marker range vs harvester, markers + clone, marker spanning words, marker vs reset_range vs harvester, set_bit vs reset_bit, marker vs two harvesters, mark_dirty vs harvest vs is_bit_set, three markers, marker vs reset(), re-mark after harvest, range mark vs range reset) plus a systematic family of 44 programs (each of 8 operations X - reset_range, reset_bit, set_bit, mark_range, mark_dirty, harvest, reset(), wide reset_range - issued on an already dirty page while a second thread performs two further read-modify-writes on the same word, in 5 shapes: two marks, mark then harvest, harvest then mark, mark then unmark, same page twice; 4 three-thread variants with a marker and a harvester; and 20 programs that start from a value-dependent initial state set up before the threads run - the first word fully dirty, fully dirty but one page, two words fully dirty - with two harvesters, harvest vs reset+re-mark, harvest vs re-mark+harvest, reset()/reset_range/clone vs harvest+re-mark) - 14 LONG-range programs (a mark / reset / mark_dirty range over three words, 72 atomic steps, against one or two foreign steps in its first, last or an interior word) and 12 programs on a ten-word bitmap with the same bit position dirty in several words of one 8-word group (harvest / reset() / clone against a mark in the first, fifth or ninth word or a mark range across words) - every interleaving of each is executed (221 527 schedules); one random program in three also starts from a fully dirty word; random 3-thread programs of up to 12 calls under seeded PCT-style schedules; 2x10^3..10^5 free-running histories. An execution is non-trivial when two different threads touch the same word back-to-back",
      exhaustive_note="all interleavings (at the granularity of whole atomic operations, sequentially consistent) of the 90 catalogue programs",
      assumptions=["interleavings are explored at atomic-operation granularity under sequential consistency; weaker-than-SC effects are left to Miri's weak-memory emulation and TSan", "the linearizability checker (60 lines, brute force with memoisation, <= 24 operations per page) is trusted", "reset() is modelled as a per-page clear (it is documented as not harvesting)"],
      level_text="Exhaustive exploration of all interleavings of bounded concurrent programs executed on the real implementation (not a model), with a linearizability oracle per execution; sampling beyond the catalogue.",
@@ -547,7 +547,7 @@ FLOORS["C08"] = {"schedules_explored": 220_000, "programs_exhausted": 90, "sched
 prop("C11", level="exploration",
      title="A memory-map snapshot stays whole and usable while the map is being replaced",
      technique="event-log monitor with generation tags and a logical clock: every published map is {base region, tag region whose first/last bytes encode its generation}; in half of the histories the tag region's guest address encodes the generation too (each replacement changes the layout), in the other half every generation keeps the same layout and only the backing memory changes; readers stamp a clock before memory(), updaters after replace() returns; offline checks: whole (list and tag bytes agree on one generation), stable while held (guard, clone, into_inner, across replacements), real-time order, per-reader monotonicity, in-lock counter <= 1, final generation == completed replacements, Weak handles of replaced maps die exactly when unreferenced; sequential model check over several cloned handles, oversubscribed native stress, TSan, Miri many-seeds (preempts inside lock/replace/arc-swap)",
-     rule="cases = histories. Sequential: 10..60 steps over 3 cloned handles (snapshot, owned snapshot, clone of snapshot, lock+replace deriving the next generation by remove+insert, a replacement issued from a destructor while the thread is unwinding from a panic (poisoned lock recovered the std way), lock+unlock, clone of a handle, clone_from between handles, further replaceable memories created from an owned snapshot, drop) with a model of the current generation and of which generations must be alive. Stress: rounds of 24 readers x 200 snapshots + 8 updaters x 40 replacements (Miri: 2+2 threads, 3/2 operations) with yields at the harness boundary. distinct key = (mode, reader action, replacements spanned while held, generation lag); non-trivial = the snapshot was held across >= 1 replacement or re-read",
+     rule="cases = histories. Sequential: 10..60 steps over 3 cloned handles (snapshot, owned snapshot, clone of snapshot, lock+replace deriving the next generation by remove+insert, a replacement issued from a destructor while the thread is unwinding from a panic (poisoned lock recovered the std way), lock+unlock, clone of a handle, clone_from between handles, further replaceable memories created from an owned snapshot, drop) and one history of 2^16 + 2^15 + 7 replacements alternating between two maps through two handles (checked after every single one), with a model of the current generation and of which generations must be alive. Stress: rounds of 24 readers x 200 snapshots + 8 updaters x 40 replacements (every third round all threads share ONE handle by reference, no clone alive) (Miri: 2+2 threads, 3/2 operations) with yields at the harness boundary. distinct key = (mode, reader action, replacements spanned while held, generation lag); non-trivial = the snapshot was held across >= 1 replacement or re-read",
      assumptions=["no hook inside src/atomic.rs / arc-swap: native runs sample schedules, the narrow windows inside replace()/lock() are reached by Miri's scheduler for small programs only", "tag bytes are written with atomic store(Release) before publishing and read with load(Acquire), so guest bytes are not a race for TSan"],
      level_text="Offline trace checks over sampled schedules (native oversubscription, TSan, Miri) plus a deterministic sequential model check; held-on-observed.",
      level_note="Schedules are sampled, not enumerated.",
